@@ -175,7 +175,7 @@ type outcome struct {
 	nontriv   bool
 }
 
-type exec struct {
+type executor struct {
 	p          plan
 	dir, path  string
 	rig        *credx.Rig
@@ -188,7 +188,7 @@ type exec struct {
 	history    []string
 }
 
-func (x *exec) start() error {
+func (x *executor) start() error {
 	rig, err := credx.NewRig(x.path, x.p.KeyLen, x.p.Mode, nil)
 	if err != nil {
 		return err
@@ -199,7 +199,7 @@ func (x *exec) start() error {
 	return nil
 }
 
-func (x *exec) stop() {
+func (x *executor) stop() {
 	if x.rig != nil {
 		x.cancel()
 		x.rig.Stop()
@@ -207,7 +207,7 @@ func (x *exec) stop() {
 	}
 }
 
-func (x *exec) owner(key []byte) (string, bool) {
+func (x *executor) owner(key []byte) (string, bool) {
 	for n, k := range x.model {
 		if bytes.Equal(k, key) {
 			return n, true
@@ -216,14 +216,14 @@ func (x *exec) owner(key []byte) (string, bool) {
 	return "", false
 }
 
-func (x *exec) failf(sig, format string, a ...any) string {
+func (x *executor) failf(sig, format string, a ...any) string {
 	return fmt.Sprintf("SIG=C08/%s ", sig) + fmt.Sprintf(format, a...) +
 		fmt.Sprintf("\n  keyLen=%d stores=%v initial=%v\n  history: %s\n  model now: %s",
 			x.p.KeyLen, x.p.Mode, x.p.Initial, strings.Join(x.history, "; "), credx.Show(x.model, x.p.KeyLen))
 }
 
 // settle lets the save debounce (5 s) elapse on the bubble's clock.
-func (x *exec) settle() {
+func (x *executor) settle() {
 	time.Sleep(6 * time.Second)
 	synctest.Wait()
 	if x.pending {
@@ -236,7 +236,7 @@ func (x *exec) settle() {
 }
 
 // views compares the three views with the model. withFile: a settle has just happened.
-func (x *exec) views(withFile bool) string {
+func (x *executor) views(withFile bool) string {
 	kl := x.p.KeyLen
 	// view 1: what real clients get
 	for i := 0; i <= strangerKey; i++ {
@@ -304,10 +304,10 @@ func (x *exec) views(withFile bool) string {
 func accepted(code int) bool { return code >= 200 && code < 300 }
 func rejected(code int) bool { return code >= 400 && code < 500 }
 
-func (x *exec) lab(l string) { x.out.labels[l] = true }
+func (x *executor) lab(l string) { x.out.labels[l] = true }
 
 // run executes the plan; must be called inside a synctest bubble.
-func (x *exec) run() {
+func (x *executor) run() {
 	kl := x.p.KeyLen
 	init := map[string][]byte{}
 	for n, k := range x.p.Initial {
@@ -396,13 +396,21 @@ func (x *exec) run() {
 				// and the store it will save cannot be loaded again. Show the consequence.
 				sig := "duplicate-upsk-accepted"
 				detail := x.dupConsequence(s, holder, key)
-				if ev.IsKnown("C08", sig) {
-					x.out.known = sig
-					x.out.trace = append(x.out.trace, s.Op+"-DUPKEY-ACCEPTED")
+				if !ev.IsKnown("C08", sig) {
+					x.out.violation = x.failf(sig, "%s answered %d although %s already has that key. %s", desc, code, holder, detail)
 					return
 				}
-				x.out.violation = x.failf(sig, "%s answered %d although %s already has that key. %s", desc, code, holder, detail)
-				return
+				// Listed finding: count it, bring the server back in line with the model (the
+				// consequence demonstration above already removed the second holder; rotating the
+				// first holder's key away and back re-creates its live entry) and carry on. If the
+				// repair does not take, the plan ends here.
+				x.out.known = sig
+				class = s.Op + "-DUPKEY-ACCEPTED(known)"
+				if !x.repairAfterDup(s, holder, key) {
+					x.out.trace = append(x.out.trace, class)
+					return
+				}
+				x.pending = true
 			default:
 				x.out.violation = x.failf("status-mismatch/"+s.Op, "%s answered %d %q, expected %s (%s)", desc, code, body,
 					map[bool]string{true: "2xx", false: "4xx"}[wantOK], why)
@@ -518,7 +526,7 @@ func (x *exec) run() {
 // dupConsequence demonstrates what the accepted duplicate leads to: remove the second holder
 // again and the first one is still listed and saved but locked out; the saved store with both
 // holders cannot be loaded by a restarting server.
-func (x *exec) dupConsequence(s step, first string, key []byte) string {
+func (x *executor) dupConsequence(s step, first string, key []byte) string {
 	kl := x.p.KeyLen
 	var sb strings.Builder
 	x.settle()
@@ -550,6 +558,27 @@ func (x *exec) dupConsequence(s step, first string, key []byte) string {
 	return sb.String()
 }
 
+// repairAfterDup undoes an accepted duplicate-key request (only used while that finding is
+// listed as open, so that the rest of the plan still runs against a server that agrees with the
+// model). dupConsequence has already deleted s.Name.
+func (x *executor) repairAfterDup(s step, holder string, key []byte) bool {
+	kl := x.p.KeyLen
+	if old, existed := x.model[s.Name]; existed { // it was an update: give the user its old key back
+		if code, _ := x.rig.Add(s.Name, old); !accepted(code) {
+			return false
+		}
+	}
+	tmp := credx.Key(kl, 7)
+	if code, _ := x.rig.Update(holder, tmp); !accepted(code) {
+		return false
+	}
+	if code, _ := x.rig.Update(holder, key); !accepted(code) {
+		return false
+	}
+	x.history = append(x.history, "(repair after listed finding)")
+	return x.views(false) == ""
+}
+
 func runPlan(t *testing.T, p plan) *outcome {
 	out := &outcome{labels: map[string]bool{}}
 	dir, err := os.MkdirTemp(workDir(), "c08-")
@@ -558,7 +587,7 @@ func runPlan(t *testing.T, p plan) *outcome {
 		return out
 	}
 	defer os.RemoveAll(dir)
-	x := &exec{p: p, dir: dir, path: filepath.Join(dir, "upsks.json"), out: out}
+	x := &executor{p: p, dir: dir, path: filepath.Join(dir, "upsks.json"), out: out}
 	synctest.Test(t, func(t *testing.T) { x.run() })
 	return out
 }
